@@ -413,12 +413,17 @@ class Interp:
     # ---- operands
     def operand(self, fr, o):
         o = o.strip()
+        if o.startswith('no_retag '):
+            o = o[len('no_retag '):]
         if o.startswith('copy ') or o.startswith('move '):
             return self.cell_of(fr, self.parse_place(o[5:])).v
         if o.startswith('const '):
             c = o[6:].strip()
             if c.startswith('"') or re.match(r'^-?\d+_\w+$', c) or c in ('true', 'false'):
                 return parse_literal(c)
+            if c.startswith('b"'):
+                import ast
+                return ast.literal_eval(c)
             if c.startswith('ZeroSized: '):
                 return Sym('fnitem', c[len('ZeroSized: '):])
             if 'promoted[' in c:
@@ -443,6 +448,12 @@ class Interp:
         txt = self.prog.consts[keys[0]][1]
         mm = re.search(r'_1 = const (.+);', txt)
         if not mm:
+            me = re.search(r'_[01] = (?:[\w:]+::)?(\w+);', txt)
+            if me:
+                owners = [(ty, t) for ty, t in self.prog.core_enums.items() if me.group(1) in t]
+                if len(owners) == 1:
+                    ty, t = owners[0]
+                    return Agg(ty, me.group(1), t[me.group(1)], [])
             raise Unsupported('promoted body ' + keys[0])
         v = mm.group(1).strip()
         if v.startswith('"'):
@@ -471,6 +482,10 @@ class Interp:
         if m and m.group(1) in ('Gt', 'Ge', 'Lt', 'Le', 'Eq', 'Ne', 'Add', 'Sub', 'AddWithOverflow', 'SubWithOverflow', 'Not', 'BitAnd', 'BitOr'):
             args = [self.operand(fr, a) for a in split_top(m.group(2))]
             return self.arith(m.group(1), args)
+        if rv.startswith('no_retag '):
+            rv = rv[len('no_retag '):]
+        if rv.startswith('[') and rv.endswith(']'):
+            return Agg('array', 'array', 0, [self.operand(fr, a) for a in split_top(rv[1:-1])])
         if rv.startswith(('copy ', 'move ', 'const ')):
             mc = re.match(r'^(.+) as ([\w:<>&\s\[\]\*]+) \((\w+)\)$', rv)
             if mc:
@@ -493,6 +508,18 @@ class Interp:
                 return Agg(ty, var, table[var], args)
         if re.match(r'^[A-Z]\w*$', rv):
             return Sym(rv)  # unit struct (RangeFull ...)
+        ms_ = re.match(r'^([\w:]+) \{ (.*) \}$', rv)
+        if ms_:
+            # struct literal: fields in declaration order
+            name = ms_.group(1).split('::')[-1]
+            vals = []
+            for fld in split_top(ms_.group(2)):
+                vals.append(self.operand(fr, fld.split(':', 1)[1]))
+            if name == 'ServerState':
+                o = Opaque('ServerState')
+                o.fields = [Cell(v) for v in vals]
+                return o
+            return Agg(name, name, 0, vals)
         raise Unsupported('rvalue ' + rv)
 
     def arith(self, op, a):
@@ -716,6 +743,8 @@ def run_stack_patch():
                 func2, fr2, dest, ret_bb = stack.pop()
                 if dest[0] == 'wrap_err':
                     self.cell_of(fr2, dest[1]).v = err(rv)
+                elif dest[0] == 'filter_keep':
+                    self.cell_of(fr2, dest[1]).v = dest[2] if rv is True else NONE()
                 else:
                     self.cell_of(fr2, dest).v = rv
                 stack.append((func2, fr2, ret_bb, 0))
